@@ -205,7 +205,16 @@ def check_class(prog, rep, modname, cname):
     val = f.params[0]
     fq = f"{cname}.__contains__"
     seen_str = seen_item = seen_other = False
-    for pe in path_returns(f.node):
+    from ..facts import PathEnd, split_ifexp
+    ends = []
+    for pe0 in path_returns(f.node):
+        if pe0.kind == "return" and isinstance(pe0.value, ast.IfExp):
+            # a conditional result is one path per arm
+            for conds, leaf in split_ifexp(pe0.value):
+                ends.append(PathEnd(pe0.guards + conds, "return", leaf, pe0.node, pe0.effects))
+        else:
+            ends.append(pe0)
+    for pe in ends:
         tf = type_facts(pe.guards, val)
         item_types = [t for t, b in tf.items() if b and t != "str"]
         cat = "str" if tf.get("str") else ("item" if item_types else "other")
